@@ -92,7 +92,7 @@ package messagequeue
 //@   lenient
 //@   safety off
 //@   requires b.Builder != nil
-//@   modifies alloc, allmaps("map[graphsync.RequestID]gsmsg.GraphSyncResponse")
+//@   modifies alloc
 //@   ensures result2 == nil ==> result1.msgSize == b.Builder.blkSize && result1.topic == b.topic && result1.responseStreams == b.responseStreams
 
 //@ -- C15/C17: messages leave in the order they were queued; what leaves takes its bytes with it
